@@ -220,6 +220,9 @@ func checkC17(c *Ctx) {
 
 	// ---- O5 configuration table ------------------------------------------------------------------------
 	c.checkPromConfig("O5 callback-table")
+
+	// ---- O6 vector identity -----------------------------------------------------------------------------
+	c.checkVectorIdentity("O6 vector-identity")
 }
 
 func (c *Ctx) checkPromAllocator(rule string, fn *ssa.Function, fOnErr *types.Var, handleMethods []string) {
@@ -1031,4 +1034,200 @@ func (c *Ctx) checkPromConfig(rule string) {
 	if okAll {
 		c.ok(rule, key, fn.Pos(), "configOpts.OnError wins; stderr/log/none -> non-panicking callbacks; otherwise the panicking default")
 	}
+}
+
+// promNameAlphabet: the characters a Prometheus-valid metric name ([a-zA-Z_:][a-zA-Z0-9_:]*) or label
+// name ([a-zA-Z_][a-zA-Z0-9_]*) can contain.
+func inPromAlphabet(r rune) bool {
+	return r == '_' || r == ':' || (r >= 'a' && r <= 'z') || (r >= 'A' && r <= 'Z') || (r >= '0' && r <= '9')
+}
+
+// checkVectorIdentity (O6): the id under which the reporter caches a vector is injective over
+// (name, set of label names) for all Prometheus-valid names - otherwise a metric gets another metric's
+// vector and With(tags) panics on the label mismatch. Decided shape: the id is
+// KeyForPrefixedStringMap(name, {key: const for key in tagKeys}) and the three separators that
+// function writes are outside the Prometheus name alphabet; for another construction: every constant
+// separator it writes contains a character outside that alphabet, and the keys are sorted.
+func (c *Ctx) checkVectorIdentity(rule string) {
+	const pk = "prometheus"
+	fn := c.fn(pk, "", "canonicalMetricID")
+	kfn := c.fn("", "", "KeyForPrefixedStringMap")
+	if fn == nil || kfn == nil || len(fn.Params) != 2 {
+		c.missing(rule, "prometheus.canonicalMetricID(name, tagKeys) / tally.KeyForPrefixedStringMap")
+		return
+	}
+	key := c.fnKey(fn)
+	c.sawFunc(key)
+	name, keys := fn.Params[0], fn.Params[1]
+	// separators of the key generator
+	sepOK := true
+	var seps []string
+	for _, n := range []string{"prefixSplitter", "keyPairSplitter", "keyNameSplitter"} {
+		k, _ := c.pkg("").Types.Scope().Lookup(n).(*types.Const)
+		if k == nil {
+			c.missing(rule, "tally."+n)
+			return
+		}
+		v, exact := constant.Int64Val(constant.ToInt(k.Val()))
+		if !exact || inPromAlphabet(rune(v)) {
+			sepOK = false
+		}
+		seps = append(seps, fmt.Sprintf("%q", rune(v)))
+	}
+	if !sepOK {
+		c.bad(rule, "tally key separators", kfn.Pos(), "a separator of the key generator ("+strings.Join(seps, ", ")+") is a character Prometheus metric or label names can contain: different (name, label names) pairs get the same vector id")
+		return
+	}
+	// shape (a)
+	shapeA := func() (bool, string) {
+		rets := returnsOf(fn)
+		if len(rets) == 0 {
+			return false, "no return"
+		}
+		for _, r := range rets {
+			call, ok := stripConvAll(r.Results[0]).(*ssa.Call)
+			if !ok || staticCallee(call) != kfn {
+				return false, "a result is not KeyForPrefixedStringMap(...)"
+			}
+			if canon(call.Call.Args[0]) != ssa.Value(name) {
+				return false, "the prefix is not the metric name"
+			}
+			mk, isMk := canon(call.Call.Args[1]).(*ssa.MakeMap)
+			if !isMk {
+				return false, "the label-name set is not a map built in this function"
+			}
+			nUpd := 0
+			okAll := true
+			for _, ref := range *mk.Referrers() {
+				mu, isMU := ref.(*ssa.MapUpdate)
+				if !isMU {
+					continue
+				}
+				nUpd++
+				inLoop := false
+				for _, fl := range fullIndexLoops(fn) {
+					if canon(fl.lenArg) == ssa.Value(keys) && fl.loop.Blocks[mu.Block()] && fl.elemOf(mu.Key) && dominatesAllLatches(mu.Block(), fl.loop) {
+						inLoop = true
+					}
+				}
+				if !inLoop {
+					okAll = false
+				}
+			}
+			if nUpd != 1 || !okAll {
+				return false, "the set is not filled with every element of tagKeys (one insertion per element, on every iteration)"
+			}
+		}
+		return true, ""
+	}
+	if ok, _ := shapeA(); ok {
+		c.ok(rule, key, fn.Pos(), "vector id = KeyForPrefixedStringMap(name, set of all label names); separators "+strings.Join(seps, ", ")+" cannot occur in Prometheus names")
+		return
+	}
+	_, whyA := shapeA()
+	// shape (b): another construction
+	var consts []string
+	bad := ""
+	addConst := func(v ssa.Value) {
+		k, ok := v.(*ssa.Const)
+		if !ok || k.Value == nil {
+			return
+		}
+		var s string
+		switch k.Value.Kind() {
+		case constant.String:
+			s = constant.StringVal(k.Value)
+		case constant.Int:
+			if b, isB := k.Type().Underlying().(*types.Basic); isB && (b.Kind() == types.Byte || b.Kind() == types.Rune || b.Kind() == types.UntypedRune) {
+				iv, _ := constant.Int64Val(k.Value)
+				s = string(rune(iv))
+			} else {
+				return
+			}
+		default:
+			return
+		}
+		consts = append(consts, fmt.Sprintf("%q", s))
+		out := false
+		for _, r := range s {
+			if !inPromAlphabet(r) {
+				out = true
+			}
+		}
+		if !out {
+			bad = fmt.Sprintf("%q", s)
+		}
+	}
+	sorted := false
+	bare := false
+	instrsOf(fn, func(in ssa.Instruction) {
+		switch x := in.(type) {
+		case *ssa.BinOp:
+			if x.Op == token.ADD {
+				if b, ok := x.Type().Underlying().(*types.Basic); ok && b.Info()&types.IsString != 0 {
+					addConst(x.X)
+					addConst(x.Y)
+				}
+			}
+		case *ssa.Call:
+			nm := ""
+			if g := staticCallee(x); g != nil {
+				nm = g.Name()
+				if g.Pkg != nil && (g.Pkg.Pkg.Path() == "sort" || g.Pkg.Pkg.Path() == "slices") || nm == "insertionSort" {
+					sorted = true
+				}
+			}
+			if strings.HasPrefix(nm, "Write") || isBuiltin(x, "append") || nm == "Join" {
+				for _, a := range x.Call.Args {
+					addConst(a)
+				}
+			}
+		case *ssa.Return:
+			if canon(stripConvAll(x.Results[0])) == ssa.Value(name) {
+				bare = true
+			}
+		}
+	})
+	_ = bare
+	switch {
+	case bad != "":
+		c.bad(rule, key, fn.Pos(), "the vector id separates the metric name from the label names with "+bad+", which consists of characters a Prometheus metric name can contain: e.g. the metric `a:b` without labels and the metric `a` with label `b` get the same id, the second one is handed the first one's vector and With(tags) panics on the label mismatch", "constants written: "+strings.Join(consts, " "), "not the reference shape: "+whyA)
+	case len(consts) == 0:
+		c.bad(rule, key, fn.Pos(), "the vector id is not built by KeyForPrefixedStringMap over the name and all label names, and writes no separator between them: different (name, label names) pairs get the same id", "not the reference shape: "+whyA)
+	case !sorted:
+		c.bad(rule, key, fn.Pos(), "the vector id is built from the label names in the order given (map iteration order) without sorting: the same metric gets different ids and is registered twice (the second registration fails)", "not the reference shape: "+whyA)
+	default:
+		c.ok(rule, key, fn.Pos(), "vector id built with separators "+strings.Join(consts, " ")+" that cannot occur in Prometheus names, over sorted label names")
+	}
+}
+
+func stripConvAll(v ssa.Value) ssa.Value {
+	for {
+		v = stripConv(v)
+		if cv, ok := v.(*ssa.Convert); ok {
+			v = cv.X
+			continue
+		}
+		return v
+	}
+}
+
+func dominatesAllLatches(b *ssa.BasicBlock, l *loopInfo) bool {
+	// ... and the loop is left only through its header (no break / return in the body)
+	for blk := range l.Blocks {
+		if blk == l.Header {
+			continue
+		}
+		for _, sc := range blk.Succs {
+			if !l.Blocks[sc] {
+				return false
+			}
+		}
+	}
+	for _, la := range l.Latch {
+		if !b.Dominates(la) {
+			return false
+		}
+	}
+	return true
 }
